@@ -99,7 +99,12 @@ func (mod *Module) findIdentityBase(baseStr string) (*resolvedIdentity, []error)
 	case "", rootPrefix:
 		// This is a local identity which is defined within the current
 		// module
-		keyName := fmt.Sprintf("%s:%s", module(mod).Name, baseName)
+		m := module(mod)
+		if m == nil {
+			errs = append(errs, fmt.Errorf("%s: can't resolve the local base %s: the module that %s belongs to is not known", source, baseStr, mod.Name))
+			break
+		}
+		keyName := fmt.Sprintf("%s:%s", m.Name, baseName)
 		base, ok = typeDict.identities.dict[keyName]
 		if !ok {
 			errs = append(errs, fmt.Errorf("%s: can't resolve the local base %s as %s", source, baseStr, keyName))
